@@ -193,7 +193,7 @@ def llvm_batch(items):
         for n, i in enumerate(idx):
             lines.append(" ".join(f"0x{b:02x}" for b in items[i][1]))
             lines.append(" ".join(["0x90" if n % 2 == 0 else "0xcc"] * 24))       # alternating sleds separate the chunks
-        p = subprocess.run([LLVM_MC, "--disassemble", "-triple=" + ("x86_64" if mode == 64 else "i386"), "--output-asm-variant=1", "--show-encoding"],
+        p = subprocess.run([LLVM_MC, "--disassemble", "-triple=" + ("x86_64" if mode == 64 else "i386"), "--output-asm-variant=1", "--show-encoding", "-mattr=+3dnow,+3dnowa"],
                            input="\n".join(lines) + "\n", stdout=subprocess.PIPE, stderr=subprocess.PIPE, text=True, timeout=600)
         badlines = set(int(m.group(1)) for m in re.finditer(r"<stdin>:(\d+):\d+: warning: invalid instruction encoding", p.stderr))
         out = [l.strip() for l in p.stdout.splitlines() if l.strip() and not l.strip().startswith(".")]
@@ -255,7 +255,7 @@ def expected_ops(o):
     return res
 
 
-def mem_same(e, d, mode, lea=False):
+def mem_same(e, d, mode, lea=False, a67=False):
     if d is None: return None
     asz = 64 if mode == 64 else 32
     for r in (e["base"], e["index"]):
@@ -271,7 +271,8 @@ def mem_same(e, d, mode, lea=False):
             return False
         if ei != di: return False
         if ei is not None and e["scale"] != d["scale"]: return False
-    if (e["disp"] - d["disp"]) % (1 << (32 if lea and e["base"] is None and e["index"] is None else asz)) != 0: return False
+    # llvm-mc prints an absolute disp32 sign-extended even under an address-size prefix
+    if (e["disp"] - d["disp"]) % (1 << (32 if (lea or a67) and e["base"] is None and e["index"] is None else asz)) != 0: return False
     if e["seg"] is not None and d["seg"] is not None and e["seg"] != d["seg"]: return False
     if e["seg"] in ("fs", "gs") and d["seg"] != e["seg"]: return False
     return True
@@ -294,12 +295,21 @@ def compare(o, parsed, immw=64, optional=()):
     want = canon_mnemonic(o["n"])
     got = canon_mnemonic(parsed["mnem"])
     if want == "xchg" and got == "nop" and o["b"][-1] == 0x90: return "AGREE"
+    if want in ("lcall", "ljmp") and got in ("call", "jmp", "lcall", "ljmp"):
+        # far transfers: llvm-mc prints the indirect far form as call/jmp without a size keyword, objdump as call/jmp FWORD|TBYTE|DWORD PTR
+        t = parsed["text"].lower()
+        if got[0] == "l" or "fword" in t or "tbyte" in t or "far" in t or (" ptr " not in t and "[" in t) or ("dword ptr" in t and 0x66 in o["b"][:4]):
+            got = want
+            immw = 16
     if PROMOTE.get(want) == got: got = want
     if got != want:
         # size-suffixed string forms etc.
         if not (got.startswith(want) and len(got) - len(want) <= 1) and not (want.startswith(got) and len(want) - len(got) <= 1):
             return "DISAGREE:mnemonic " + parsed["mnem"]
     exp = expected_ops(o)
+    if want in ("umonitor", "enqcmd", "enqcmds", "movdir64b"):
+        # the register-addressed memory operand is printed as a register by the decoders
+        exp = [("r", x[1]["base"]) if (x[0] == "m" and j == 0 and x[1]["base"] and not x[1]["index"] and not x[1]["disp"]) else x for j, x in enumerate(exp)]
     dec = parsed["ops"]
     if any(x[0] == "?" for x in dec): return "UNKNOWN:operand text " + parsed["text"]
     eregs = [x[1] for x in exp if x[0] == "r"]
@@ -319,7 +329,7 @@ def compare(o, parsed, immw=64, optional=()):
     dmem = [x[1] for x in dec if x[0] == "m"]
     if emem and dmem and len(emem) == len(dmem):
         for e, d in zip(emem, dmem):
-            r = mem_same(e, d, o["m"], want == "lea")
+            r = mem_same(e, d, o["m"], want == "lea", o["m"] == 64 and 0x67 in o["b"][:4])
             if r is None: return "UNKNOWN:memory text " + parsed["text"]
             if not r: return f"DISAGREE:memory {d} vs requested {e}"
         for (e, x) in zip([y for y in o["ops"] if y["t"] == "m"], [y for y in dec if y[0] == "m"]):
@@ -410,6 +420,7 @@ def describe(o):
     dec = (f" {{k{o['k']}}}" if o["k"] else "") + (" {z}" if o["z"] else "") + (" {%s-sae}" % ["rn", "rd", "ru", "rz"][o["er"]] if o["er"] >= 0 else "") + (" {sae}" if o["sae"] else "")
     names = ["lock", "rep", "repne", "xacquire", "xrelease", "short", "long", "mod-mr", "mod-rm", "vex3", "vex", "evex", "rex"]
     opts = [n for j, n in enumerate(names) if o["opt"] >> j & 1]
+    if o.get("eo"): opts.append("optimize-for-size")
     return f"{o['m']}-bit: {' '.join(opts) + ' ' if opts else ''}{o['n']} {', '.join(opstr(x) for x in o['ops'])}{dec} -> {bytes(o['b']).hex()}"
 
 
@@ -472,6 +483,10 @@ def reject_key(o, clause, row, forms, names):
     if a16 and emitted_evex(o) and clause == "mem-disp":
         return "class:evex-disp8-not-compressed-with-16-bit-addressing"
     b = o["b"]
+    if clause == "longer-than-15":
+        return "class:instruction-longer-than-15-bytes"
+    if clause == "modrm-rm-fixed" and row["rmfix"] == 4:
+        return "class:forced-sib-operand-emitted-without-sib"
     if o["m"] == 64 and any(0x40 <= b[j] <= 0x4F and b[j + 1] in (0x67, 0x26, 0x2E, 0x36, 0x3E, 0x64, 0x65) for j in range(len(b) - 1)) and clause == "length":
         return "class:rex-prefix-emitted-before-address-size-or-segment-override"
     if clause == "prefix-67" and not any(x["fld"] == "rm" and x["msz"] >= 0 for x in row["ops"]):
@@ -514,6 +529,7 @@ def tlc_pointwise(ctx, lines, tag, shards, workers=2, timeout=2400, heap="3g"):
         return i, vlib.run_tlc(ctx, MOD, CFG, workers=workers, timeout=timeout, env=dict(env, OBS=paths[i]), heap=heap, tag=f"{tag}{i}", extra=["-continue"])
 
     rej, unj = [], []
+    devs = ctx.extra.setdefault("deviation_actions_used", {})
     with concurrent.futures.ThreadPoolExecutor(max_workers=shards) as ex:
         for i, r in ex.map(one, range(shards)):
             if r.kind in ("timeout", "error") or "Finished computing initial states" not in r.out:
@@ -529,6 +545,10 @@ def tlc_pointwise(ctx, lines, tag, shards, workers=2, timeout=2400, heap="3g"):
                 raise Broken(f"TLC {tag} shard {i}: {nviol} invariant violations but {len(rj)} REJECT lines")
             for ln, clause, k in rj:
                 rej.append((json.loads(parts[i][int(ln) - 1]), clause, int(k)))
+            for ln, name in re.findall(r'<<"DEVIATION", (\d+), "([^"]*)">>', r.out):
+                with _lock:
+                    d = devs.setdefault(name, {"observations": 0, "example": describe(json.loads(parts[i][int(ln) - 1]))})
+                    d["observations"] += 1
             for ln, why in re.findall(r'<<"UNJUDGED", (\d+), "([^"]*)">>', r.out):
                 unj.append((json.loads(parts[i][int(ln) - 1]), why, 0))
             os.remove(paths[i])
@@ -614,6 +634,8 @@ def judge(ctx, forms, names, rej, what):
             dis = (v1.startswith("DISAGREE") or (v2 or "").startswith("DISAGREE")) and not agree
             if clause == "prefix-67" and 0x67 not in o["b"][:4] and not any("addr" in t for t in texts):
                 dis, agree = True, False            # implicit operand address size: the decoders print no operand; the missing 67 is the evidence
+            if clause == "longer-than-15" and len(o["b"]) > 15:
+                dis, agree = True, False            # SDM vol.2 2.3.11 / vol.3: an instruction longer than 15 bytes is #GP; the decoders do not enforce the limit
             if clause == "option-rex" and agree:
                 dis, agree = True, False            # forced REX missing: decoders read the same instruction, the option had no effect
             (corroborated if dis and not agree else contradicted).append((o, clause, row, v1, v2, texts))
@@ -682,7 +704,7 @@ def validate_spec(ctx, forms, accepted_ok, seed):
 
 # instructions (by DB name) that llvm-mc 14 and objdump 2.40 do not know or print differently: a double disagreement on
 # these is a decoder limit, not a spec bug (listed in the evidence)
-DECODER_LIMITS = re.compile(r"^(aadd|aand|aor|axor|vpdp|tdp|tcmm|ttdp|ttcmm|tconj|ttrans|t2rpn|vcvtne|vsha512|vsm[34]|cmp\w+xadd|aadd|aand|aor|axor|rdmsrlist|wrmsrlist|wrmsrns|urdmsr|uwrmsr|"
+DECODER_LIMITS = re.compile(r"^(pfrcpv|pfrsqrtv|aadd|aand|aor|axor|vpdp|tdp|tcmm|ttdp|ttcmm|tconj|ttrans|t2rpn|vcvtne|vsha512|vsm[34]|cmp\w+xadd|aadd|aand|aor|axor|rdmsrlist|wrmsrlist|wrmsrns|urdmsr|uwrmsr|"
                             r"prefetchit|senduipi|hreset|erets|eretu|lkgs|pbndkb|seamcall|seamops|seamret|tdcall|uiret|testui|clui|stui|enqcmd|"
                             r"vbcstnesh2ps|vbcstnebf162ps|vcvtneeph2ps|vcvtneoph2ps|vcvtneebf162ps|vcvtneobf162ps|vpmadd52|pvalidate|rmp|psmash|"
                             r"tlbsync|invlpgb|mcommit|rdpru|clzero|monitorx|mwaitx|llwpcb|slwpcb|lwp|xresldtrk|xsusldtrk|serialize|"
@@ -731,7 +753,8 @@ def run(ctx):
     # spec validation against the independent decoders
     sample, stats, quirks, bad = validate_spec(ctx, forms, ok_obs, ctx.seed)
     def limit(o):       # unknown to llvm-mc 14 / objdump 2.40: newer extensions, APX-promoted EVEX forms of kmov
-        if o["n"].startswith("bnd") and any(x["t"] == "m" and ((x["bt"] or x["it"]) in ("gpw", "gpd" if o["m"] == 64 else "gpw")) for x in o["ops"]):
+        if o["n"].startswith("bnd") and any(x["t"] == "m" and ((x["bt"] or x["it"]) in ("gpw", "gpd" if o["m"] == 64 else "gpw") or
+                                                               (o["m"] == 64 and (x["bt"] in ("", "rip")))) for x in o["ops"]):
             return True         # MPX has no 16-bit addressing (#UD) and ignores 0x67 in 64-bit mode: whether the assembler should accept it is C13's question
         return bool(DECODER_LIMITS.match(o["n"])) or (o["n"].startswith("kmov") and 0x62 in o["b"][:3])
     limits = [b for b in bad if limit(b[0])]
